@@ -34,6 +34,23 @@ CHECKS = {
         note="Trusted: Log/Pow kernel contracts (validated against the real kernels on every run, 10^4..10^6 points), FTZ/DAZ model. "
              "Regions where the straight-through residual is inexact are queried separately and listed as known findings.",
         ref="DESIGN.md section 3 C03"),
+    "C16": dict(
+        level="model_checking", engine="pysym",
+        technique="symbolic execution of the real qtools multiplier factory on z3-backed integers (all feasible paths) + NIA/LIA queries over symbolic operand codes",
+        text="For every ordered pair of operand kinds the real MultiplierFactory / multiplier_impl classes run on symbolic (bits, int_bits, "
+             "signedness); the solver decides per path that no pair of operand codes has a product outside the reported output type, and "
+             "that implemented_as() is the kind the operands call for.  Bounded by bits <= 16 (po2 <= 6).",
+        note="Trusted: z3, the proxy/shim layer of vf.pysym, the value-set semantics of vf.qtypes.  The link from real qkeras quantizers "
+             "to qtools types (convert_qkeras_quantizer/get_exp) is a finite enumeration, reported as auxiliary.",
+        ref="DESIGN.md section 3 C16"),
+    "C17": dict(
+        level="model_checking", engine="pysym",
+        technique="symbolic execution of the real accumulator/adder/merge sizing code on z3-backed integers (N symbolic up to 2^20) + LIA queries over symbolic sums",
+        text="The real AccumulatorFactory, IAdder and MergeFactory(Add) code runs on symbolic type parameters and a symbolic kernel size; the "
+             "solver decides per path that every sum of N summand codes (two/three operand codes) is a code of the reported type and that "
+             "widening a fixed-point adder operand never narrows the result.",
+        note="Trusted as C16 plus the ceil(log2 n) contract.  Maximum/Concatenate/Average/Multiply/Dot merges are outside the claim.",
+        ref="DESIGN.md section 3 C17"),
 }
 
 NOT_YET = "check not built yet in this revision (see DESIGN.md section 7 build order)"
